@@ -114,12 +114,14 @@ PROPS = {
         "test": "TestC05",
         "level": "exploration",
         "world": "B: authorization-server node (session database on the simulator's cache store) and client node, real RFC021 and DPoP flows over the simulated HTTP transport",
-        "rule": "each run obtains one valid one-time secret from the real flow (service-to-service presentation nonce: the client's real token request, lost on the "
-                "wire; DPoP proof id: real token, real proof), presents it in 2-3 concurrent requests whose individual session-store operations are scheduling points, "
-                "then replays it sequentially at +0, +2, +4, +6, +8, +11, +21 s, +14, +16 and +36 min. Distinct = distinct (kind, interleaving of store operations) signatures.",
-        "invariants": ["C05.once.s2s-nonce", "C05.once.dpop-jti"],
-        "assumptions": ["only the in-memory session database (default deployment) is simulated; Redis/Memcached back-ends are not",
-                        "authorization code, stored request object and OpenID4VP nonce need the browser-facing user flow and are not driven (see DESIGN.md C05)"],
+        "rule": "each run obtains one valid one-time secret from the real flow - service-to-service presentation nonce (the client's real token request, lost on the "
+                "wire once; also presentations dated ahead within the clock skew); DPoP proof id (real token, real proof); authorization code, stored request object "
+                "(of either node) and OpenID4VP nonce / state (the real OpenID4VP user flow between the two nodes with the workload as the user's browser, the request "
+                "carrying the value lost on the wire once) - presents it in 2-3 concurrent requests whose individual session-store operations are scheduling points, "
+                "then replays it sequentially (+0 ... +36 min, or patiently once around the end of the stored value's lifetime); for the code also: a failed redemption "
+                "attempt (wrong verifier / client id) first, then the right one. Distinct = distinct (kind, interleaving of store operations) signatures.",
+        "invariants": ["C05.once.s2s-nonce", "C05.once.dpop-jti", "C05.once.authorization-code", "C05.once.request-object", "C05.once.openid4vp-nonce"],
+        "assumptions": ["only the in-memory session database (default deployment) is simulated; Redis/Memcached back-ends are not"],
         "quick": {"budget_s": 60, "chunk": 25},
         "thorough": {"budget_s": 600, "chunk": 25, "minimise_s": 120},
     },
